@@ -63,6 +63,19 @@ def random_history(r, coin, nblocks, shared_addresses=True, many_outputs=False, 
             t = K.Tx(ins, outs)
             txs.append(t)
             utxos += [(t.txid(), i) for i in range(nout)]
+        # forward reference inside the block: an input naming an outpoint that a LATER transaction of the same block creates
+        # (such an input must not remove it: only inputs of later transactions spend an output)
+        if len(txs) >= 3 and r.random() < 0.4:
+            i = r.randrange(1, len(txs) - 1)
+            j = r.randrange(i + 1, len(txs))
+            if txs[j].outs:
+                ins = list(txs[i].ins)
+                ins[0] = (txs[j].txid(), r.randrange(len(txs[j].outs)), b"\x01\x02", 0xffffffff)
+                txs[i].ins = ins
+        # a byte-identical copy of an earlier transaction of this block, after something spent the original's output
+        if len(txs) >= 3 and r.random() < 0.15:
+            k = r.randrange(1, len(txs))
+            txs.append(K.Tx(list(txs[k].ins), list(txs[k].outs), version=txs[k].version, lock=txs[k].lock))
         blocks.append(K.Block(txs, time=1231006505 + 600 * h + r.choice([0, -900, 5]), nonce=r.randrange(1 << 32)))
     return link(blocks)
 
